@@ -334,7 +334,8 @@ class Inliner:
     def inline_body(self, caller: FunctionInfo, call: ast.Call,
                     h: FunctionInfo, make_result, generator_ok=False,
                     result_name: str | None = None,
-                    rename_local: dict[str, str] | None = None):
+                    rename_local: dict[str, str] | None = None,
+                    keep_returns: bool = False):
         is_gen = any(isinstance(n, (ast.Yield, ast.YieldFrom))
                      for n in h.body_nodes())
         if is_gen and not generator_ok:
@@ -373,9 +374,17 @@ class Inliner:
         # names, which must not be renamed
         ren = _Rename(mapping)
         body = [ren.visit(s) for s in body]
-        body = tailify(body, make_result)
-        if body is None:
-            return None
+        if keep_returns:
+            # the helper's bare `return` ends the caller too (the inlined
+            # loop is the caller's last statement)
+            if any(isinstance(n, ast.Return) and n.value is not None and not (
+                    isinstance(n.value, ast.Constant) and n.value.value is None)
+                   for b in body for n in ast.walk(b)):
+                return None
+        else:
+            body = tailify(body, make_result)
+            if body is None:
+                return None
         out = binds + body
         return out or [ast.Pass()]
 
@@ -417,6 +426,15 @@ class Inliner:
         call = None
         make = None
         gen_ok = False
+        # `await H(..)` of a coroutine helper: the helper's body runs here
+        if isinstance(st, (ast.Expr, ast.Assign, ast.AnnAssign, ast.Return)) \
+                and isinstance(getattr(st, "value", None), ast.Await) and \
+                isinstance(st.value.value, ast.Call):
+            hh = self.candidate(caller, st.value.value)
+            if hh is not None and isinstance(hh.node, ast.AsyncFunctionDef) \
+                    and not hh.is_generator():
+                st = _clone(st)
+                st.value = st.value.value
         if isinstance(st, ast.Expr) and isinstance(st.value, ast.Call):
             call, make = st.value, (lambda e: None)
         elif isinstance(st, ast.Expr) and isinstance(
@@ -478,9 +496,15 @@ class Inliner:
                                h.node.args.args + h.node.args.kwonlyargs}
                     if isinstance(yv, ast.Name) and yv.id not in hparams:
                         rl = {yv.id: st.target.id}
+                    # is this loop the last statement of the caller (then a
+                    # bare return of the generator = return of the caller)?
+                    last_stmt = caller.node.body[-1] is st
+                    has_ret = any(isinstance(n, ast.Return)
+                                  for n in h.body_nodes())
                     body = self.inline_body(caller, st.iter, h,
                                             (lambda e: None), True,
-                                            rename_local=rl)
+                                            rename_local=rl,
+                                            keep_returns=has_ret and last_stmt)
                     if body is not None:
                         tgt, loop_body = st.target, st.body
 
@@ -520,7 +544,14 @@ class Inliner:
                         value=e if e is not None else ast.Constant(value=None))
                     body = self.inline_body(caller, first, h, make2)
                     if body is not None:
-                        new_st = _ReplaceNode(first, ast.Name(
+                        target_node = first
+                        if isinstance(h.node, ast.AsyncFunctionDef):
+                            aw = [n for n in ast.walk(st) if isinstance(
+                                n, ast.Await) and n.value is first]
+                            if not aw:
+                                return None  # coroutine object not awaited here
+                            target_node = aw[0]
+                        new_st = _ReplaceNode(target_node, ast.Name(
                             id=tmp, ctx=ast.Load())).visit(copy.copy(st))
                         self.inlined.append(f"{h.fq} into {caller.fq} (hoisted)")
                         return body + [new_st]
